@@ -318,6 +318,8 @@ pub struct Executed<T> {
 }
 
 thread_local! {
+    /// Wall-clock deadline for the run on this thread; set only by the minimiser (never while checking).
+    pub static WALL_LIMIT: std::cell::Cell<Option<std::time::Instant>> = const { std::cell::Cell::new(None) };
     pub static PANICS: std::cell::RefCell<Vec<String>> = const { std::cell::RefCell::new(Vec::new()) };
 }
 
@@ -362,9 +364,27 @@ where
             .expect("runtime");
         let out = rt.block_on(async move {
             START.with(|s| s.set(Some(tokio::time::Instant::now())));
-            let r = tokio::time::timeout(std::time::Duration::from_millis(horizon_ms), body(w)).await;
+            let wall = WALL_LIMIT.with(|c| c.get());
+            let r = match wall {
+                None => tokio::time::timeout(std::time::Duration::from_millis(horizon_ms), body(w)).await.ok(),
+                // minimiser only: a candidate that costs far more wall time than the original is abandoned
+                Some(deadline) => {
+                    tokio::select! {
+                        biased;
+                        r = tokio::time::timeout(std::time::Duration::from_millis(horizon_ms), body(w)) => r.ok(),
+                        _ = async {
+                            loop {
+                                tokio::time::sleep(std::time::Duration::from_millis(50)).await;
+                                if std::time::Instant::now() > deadline {
+                                    break;
+                                }
+                            }
+                        } => None,
+                    }
+                }
+            };
             let ms = World::now_ms();
-            (r.ok(), ms)
+            (r, ms)
         });
         drop(rt);
         out
